@@ -395,6 +395,38 @@ def refresh (extra : List (Id × Obj)) (ls : List Layer) : Except Err Loaded :=
     | .error e => .error e
     | .ok sn => .ok ⟨h, s.2, links, sn⟩
 
+/-! ### `refresh()` called again on the same `Database` object (generations)
+
+    A `Database` may be modified after it has been loaded (containers replaced through the
+    `diag_layer_containers` setter + `add_odx_file`, objects removed from / added to the lists of a layer)
+    and is then refreshed again. On the heap this means: the dictionaries of the link database(s) of the
+    earlier generation(s) are still there (`h0`; the old `OdxLinkDatabase` object may even still be
+    referenced by user code), and `self._odxlinks = OdxLinkDatabase()` creates a **new** object
+    (`_db = {}`) which is then filled from the *current* content. -/
+
+/-- `self._odxlinks = OdxLinkDatabase(); self._odxlinks.update(self._build_odxlinks())` on a heap that
+    already holds the dictionaries of earlier generations -/
+def buildGlobalOn (h0 : Heap) (extra : List (Id × Obj)) (ls : List Layer) : Heap × DbObj :=
+  let merged := (extra ++ ls.flatMap (·.links)).foldl (fun acc e => dset e.1 e.2 acc) []
+  hUpdate (h0, []) merged true
+
+/-- `Database.refresh()` on a heap left behind by earlier generations -/
+def refreshOn (h0 : Heap) (extra : List (Id × Obj)) (ls : List Layer) : Except Err Loaded :=
+  let s := buildGlobalOn h0 extra ls
+  match resolveLayers ls s.2 s.1 ls with
+  | .error e => .error e
+  | .ok (h, links) =>
+    match snrefPhase ls links ls with
+    | .error e => .error e
+    | .ok sn => .ok ⟨h, s.2, links, sn⟩
+
+/-- NOT the code — only for the counter-example `C10_refresh_keep_counterexample`: the
+    `OdxLinkDatabase` object `prev` of the previous generation is kept and merely `update`d
+    (`OdxLinkDatabase()` created once in `Database.__init__`). -/
+def buildGlobalKeep (prev : Heap × DbObj) (extra : List (Id × Obj)) (ls : List Layer) : Heap × DbObj :=
+  let merged := (extra ++ ls.flatMap (·.links)).foldl (fun acc e => dset e.1 e.2 acc) []
+  hUpdate prev merged true
+
 /-- the layers `retarget_snrefs` visits, in the order it visits them: the layer itself, then — for each
     PARENT-REF in `PARENT-REFS` order — everything the recursive call on that parent visits (depth first;
     a layer reachable over several paths is visited once per path) -/
